@@ -80,15 +80,15 @@ impl Case17 {
         let g1 = match run(Some(&self.s1), None) {
             Ok(g) => g,
             Err(p) if is_discard(&p) => return e("discard", p),
-            Err(p) => return e("unexpected-panic", format!("pass with seed s1 panicked: {}", p)),
+            Err(p) => return e("discard", format!("pass with seed s1 panicked: {}", p)),
         };
         let g2 = match run(Some(&self.s2), None) {
             Ok(g) => g,
-            Err(p) => return e("unexpected-panic", format!("pass with seed s2 panicked: {}", p)),
+            Err(p) => return e("discard", format!("pass with seed s2 panicked: {}", p)),
         };
         let g3 = match run(Some(&comb), None) {
             Ok(g) => g,
-            Err(p) => return e("unexpected-panic", format!("pass with seed alpha*s1+beta*s2 panicked: {}", p)),
+            Err(p) => return e("panic-for-combination", format!("the passes with s1 and s2 ran, but the pass with seed alpha*s1+beta*s2 panicked: {}", p)),
         };
         let mut compared = false;
         for h in 0..g1.len() {
@@ -129,13 +129,13 @@ impl Case17 {
         }
         // omitted seed == explicit ones, bitwise
         let ones = vec![1.0; self.s1.len()];
-        let gn = match run(None, Some(&self.prelude_dims)) {
-            Ok(g) => g,
-            Err(p) => return e("unexpected-panic", format!("pass with an omitted seed panicked: {}", p)),
-        };
         let go = match run(Some(&ones), None) {
             Ok(g) => g,
-            Err(p) => return e("unexpected-panic", format!("pass with a seed of ones panicked: {}", p)),
+            Err(p) => return e("discard", format!("pass with a seed of ones panicked: {}", p)),
+        };
+        let gn = match run(None, Some(&self.prelude_dims)) {
+            Ok(g) => g,
+            Err(p) => return e("omitted-seed-panics", format!("backward(ones) ran but backward(None) panicked (an unrelated backward(None) on dims {:?} ran before): {}", self.prelude_dims, p)),
         };
         for h in 0..gn.len() {
             let same = match (&gn[h], &go[h]) {
